@@ -21,6 +21,9 @@ LEAVES = [
     # strings: plain, double, escape kinds, continuation, empty
     ("'s'",), ('"s"',), ("'it\\'s'",), ("'\\x41\\u0041\\n'",),
     ("'a\\\nb'",), ("''",), ("'a\\x0cb'",),
+    # RAW form feed / next line / file separator inside a literal (Python's
+    # str.splitlines treats them as line boundaries, ES5 does not)
+    ("'a\x0cb'",), ("'\x85'",), ("'a\\\x1cb'",),
     # regexes
     ('/r/',), ('/r/g',), ('/[/]/',), ('/=/',),
     # words
@@ -31,6 +34,7 @@ LEAVES = [
 ]
 # a reduced catalogue for the big three-slot products
 LEAVES_SMALL = [('a',), ('$',), ('\xe9',), ('a\u0301',), ('1',), ('1.',), ('.5',), ("'s'",),
+                ("'a\x0cb'",),
                 ('/r/',), ('/r/g',), ('/=/',), ('this',), ('(', 'a', ')'), ('[', ']'),
                 ('{', '}')]
 
